@@ -6,6 +6,8 @@
 (*              runpp(tolerance_mva = 1e-10, calculate_voltage_angles = cfg.cva, trafo_model = cfg.tmodel)                     *)
 (*   C.okA, C.okB   the power flow of the original / transformed network converged                                            *)
 (*   C.applied  the transformation itself returned normally (C23: the toolbox function; C05: the re-index function / rebuild) *)
+(*   C.errB     "" | "notconv" (counted, every relation is vacuous) | "error": runpp on the transformed network raised an         *)
+(*              exception other than LoadflowNotConverged                                                                     *)
 (*   C.projB    structural projection of the real transformed network (who is attached where), see EquivDef!Proj              *)
 (* The correspondence is NOT logged: it is computed here, by EquivDef!Corr, from the configuration.                           *)
 (* Tolerance between the two independent solves: 30 micro-units + 20 ppm per compared value (x number of summed terms).       *)
@@ -37,6 +39,7 @@ Ok(kind) == Both => \A m \in CorrPart(World(cfg), kind) : m.kind = kind => IF ki
 
 \* ---- C05: equivalent re-representations -----------------------------------------------------------------------------------------------
 C05_Applied == Applicable(cfg) => C.applied        \* the re-representation could be carried out (reindex functions are real code)
+C05_Solvable == (C.applied /\ C.okA) => C.errB # "error"   \* the power flow does not break on the re-represented network
 C05_Eq      == Ok("eq")                            \* same table, same name, same column
 C05_Sum     == Ok("sum")                           \* split load / sgen, parallel = n -> n lines, bus sums of fused buses
 C05_Ren     == Ok("ren")                           \* loading of each of the n expanded lines = loading of the bundle
@@ -45,6 +48,7 @@ C05_Fused   == Ok("fused")                         \* buses of one fused class r
 C05_Total   == Ok("total")                         \* total active / reactive losses
 \* ---- C23: toolbox transformations -------------------------------------------------------------------------------------------------------
 C23_Applied == Applicable(cfg) => C.applied        \* the toolbox function accepts every target that meets its documented preconditions
+C23_Solvable == (C.applied /\ C.okA) => C.errB # "error"   \* ... nor on the network the toolbox function returned
 C23_Eq      == Ok("eq")
 C23_Sum     == Ok("sum")                           \* ward -> load + shunt, xward -> load + shunt + series branch, fused bus sums
 C23_Ren     == Ok("ren")                           \* line <-> impedance, ext_grid -> slack gen, ward/xward voltages -> internal elements
